@@ -83,11 +83,12 @@ typedef struct {
 	int msglen;
 } walk_result;
 
+static int walk_parent_type = -1;
 static void walk_note(walk_result * r, int cls, token * t, long depth) {
 	if (r->count[cls]++ == 0 && r->msglen < (int) sizeof(r->msg) - 100) {
 		r->msglen += snprintf(r->msg + r->msglen, sizeof(r->msg) - r->msglen,
-							  "%s:type=%d,start=%zu,len=%zu,depth=%ld;", walk_class_name[cls],
-							  t ? t->type : -1, t ? t->start : 0, t ? t->len : 0, depth);
+							  "%s:type=%d,start=%zu,len=%zu,depth=%ld,parent=%d;", walk_class_name[cls],
+							  t ? t->type : -1, t ? t->start : 0, t ? t->len : 0, depth, walk_parent_type);
 	}
 }
 
@@ -120,22 +121,31 @@ static int ptrset_add(ptrset * s, void * p) {
 static void walk_tree(token * root, size_t range_start, size_t range_len, size_t srclen, walk_result * r) {
 	memset(r, 0, sizeof(*r));
 	r->sig = 1469598103934665603ull;
+	walk_parent_type = -1;
 	if (!root) return;
 
 	ptrset seen = {0};
 	size_t cap = 1024, sp = 0;
-	struct fr { token * t; long depth; } * st = malloc(cap * sizeof(*st));
+	struct fr { token * t; long depth; int ptype; } * st = malloc(cap * sizeof(*st));
 	long limit = (long) srclen * 8 + 100000;
 
 	if (root->start != range_start || root->len != range_len) {
+		/* report the type of the last top-level block as "parent" so the failing construct is named */
+		token * lc = root->child;
+		long guard = 0;
+		while (lc && lc->next && guard++ < 10000000) lc = lc->next;
+		walk_parent_type = lc ? lc->type : -1;
 		walk_note(r, WK_ROOT, root, 0);
+		walk_parent_type = -1;
 	}
 	if (root->prev) walk_note(r, WK_PREV, root, 0);
 
-	st[sp].t = root; st[sp].depth = 0; sp++;
+	walk_parent_type = -1;
+	st[sp].t = root; st[sp].depth = 0; st[sp].ptype = -1; sp++;
 	while (sp) {
 		token * head = st[--sp].t;
 		long depth = st[sp].depth;
+		walk_parent_type = st[sp].ptype;
 		/* iterate the sibling chain starting at head */
 		token * prev = NULL;
 		token * last = NULL;
@@ -152,7 +162,7 @@ static void walk_tree(token * root, size_t range_start, size_t range_len, size_t
 			if (t->mate && t->mate->mate != t) walk_note(r, WK_MATE, t, depth);
 			if (t->child) {
 				if (sp == cap) { cap *= 2; st = realloc(st, cap * sizeof(*st)); }
-				st[sp].t = t->child; st[sp].depth = depth + 1; sp++;
+				st[sp].t = t->child; st[sp].depth = depth + 1; st[sp].ptype = t->type; sp++;
 			}
 			prev = t;
 			last = t;
